@@ -241,6 +241,24 @@ func verifRunPaging(out *verifkit.Trace, rng *rand.Rand, sim *verifsim.Sim, sid 
 	}
 	var cont Container = root
 	start := uint(0)
+	/* a start offset of the caller's choosing on the first request (the statement quantifies over them): the first
+	   page then counts from there - everything before the offset is skipped, an offset beyond its end skips the
+	   whole page and nothing else.  Reported as the layout whose first page is shorter by what was skipped, items
+	   renumbered; only where no page leads back to the first one. */
+	skipped := 0
+	backToFirst := false
+	for _, pg := range in.Pages {
+		backToFirst = backToFirst || pg.Next == 1
+	}
+	if !backToFirst && len(in.Pages) > 0 && (sid%4 == 1 || sid%7 == 3) {
+		start = uint(1 + (sid/4)%(in.Pages[0].N+3))
+		skipped = int(start)
+		if skipped > in.Pages[0].N {
+			skipped = in.Pages[0].N
+		}
+		pagesOut[0] = verifkit.M{"n": in.Pages[0].N - skipped, "next": in.Pages[0].Next}
+		ev["start0"] = start
+	}
 	sizes := append([]uint{}, in.Sizes...)
 	for k := 0; k < extraCalls; k++ {
 		sizes = append(sizes, uint(rng.Intn(4)))
@@ -268,6 +286,10 @@ func verifRunPaging(out *verifkit.Trace, rng *rand.Rand, sim *verifsim.Sim, sid 
 			case verifTag:
 				if failed {
 					tail++
+				} else if skipped > 0 && len(x.tag) == 2 && x.tag[0] == 1 {
+					/* item i of the first page is item i - skipped of the layout as reported (an item from before
+					   the offset gets a number that is none) */
+					tags = append(tags, []int{1, x.tag[1] - skipped})
 				} else {
 					tags = append(tags, x.tag)
 				}
